@@ -4,7 +4,7 @@ from core import World, parse_fs, Line
 from gen import Gen, mode_line, Call
 from suites import gen_history, run_suite, parse_snap, parse_snap_scan, esc, unesc, has_cr_eol, snap_file_suffix, mutate_call
 
-LEAN_MODULES = ['GoSnaps.Props.C03', 'GoSnaps.Props.C06', 'GoSnaps.Props.Tie.Path', 'GoSnaps.Props.Tie.Snapshot', 'GoSnaps.Props.Tie.SnapshotIO', 'GoSnaps.Props.Tie.Registry', 'GoSnaps.Props.Tie.Flows']
+LEAN_MODULES = ['GoSnaps.Props.C03', 'GoSnaps.Props.C06', 'GoSnaps.Props.Tie.Path', 'GoSnaps.Props.Tie.Snapshot', 'GoSnaps.Props.Tie.SnapshotIO', 'GoSnaps.Props.Tie.Registry', 'GoSnaps.Props.Tie.Flows', 'GoSnaps.Props.Tie.Wrappers']
 
 
 def valid_json(b):
